@@ -14,6 +14,7 @@ import (
 	"fmt"
 	"math"
 	"math/rand/v2"
+	"regexp"
 
 	"seehuhn.de/go/postscript/type1"
 
@@ -63,9 +64,25 @@ func mutateFontText(rng *rand.Rand, data []byte) []byte {
 		{"/Weight ", "/Weight 5 def /Wt "},
 		{"/BlueValues ", "/BlueValues [] def /Bv "},
 	}
+	if rng.IntN(5) == 0 {
+		// a CharStrings (or Subrs-free) entry keyed by a string instead of a name
+		// literal, the string holding characters no name token can hold (most
+		// interpreters convert string keys to names; if the reader accepts such
+		// a file, the font it returns must still be writable)
+		if loc := charStringKeyRe.FindSubmatchIndex(data); loc != nil {
+			key := []string{"(A B)", "(a/b)", "(x(y)z)", "()", "(%)", "(two words)"}[rng.IntN(6)]
+			out := append([]byte(nil), data[:loc[2]-1]...)
+			out = append(out, key...)
+			out = append(out, data[loc[3]:]...)
+			return out
+		}
+	}
 	r := repl[rng.IntN(len(repl))]
 	return []byte(stringsReplaceOnce(s, r[0], r[1]))
 }
+
+// "/name 123 RD " or "/name 123 -| " at the start of a line: a charstring entry
+var charStringKeyRe = regexp.MustCompile(`\n/([A-Za-z][A-Za-z0-9.]*) [0-9]+ (?:RD|-\|) `)
 
 func stringsReplaceOnce(s, old, new string) string {
 	i := bytes.Index([]byte(s), []byte(old))
